@@ -60,8 +60,26 @@ pub fn gen_cepstrum(t: &mut Tape, len: usize, alpha: f64, target: f64) -> Vec<f6
         *ci = t.gauss() * scale;
         scale *= decay;
     }
+    // sparse cepstra: exact zeros below non-zero higher orders (and an exactly zero gain term)
+    match t.weighted(&[12, 2, 1, 1]) {
+        0 => {}
+        1 => {
+            for ci in c.iter_mut().skip(1) {
+                if t.chance(0.35) {
+                    *ci = 0.0;
+                }
+            }
+        }
+        2 => c[0] = 0.0,
+        _ => {
+            c[0] = 0.0;
+            if len > 2 {
+                c[1] = 0.0;
+            }
+        }
+    }
     if c[1..].iter().all(|x| *x == 0.0) {
-        c[1] = 0.5;
+        c[len - 1] = 0.5;
     }
     let cur = shape_max(&c, alpha, 129);
     if cur > 0.0 {
@@ -97,10 +115,10 @@ impl Prop for MlsaSpectrum {
         "mlsa-spectrum".into()
     }
     fn rule(&self) -> String {
-        "vector length 2..40, alpha in {0} u [0,0.6], rate in {8k,16k,22.05k,44.1k,48k,96k}, cepstrum = Gaussian x geometric decay with c0 in [-3,3] and shape max|log H - b0| scaled to a target in [0.2,2]; DFT log-magnitude of the pulse response (frame 1 and frame 2) on 65/257 frequencies vs sum_m c_m cos(m w~) within 0.01 neper; c0 in [-3,3] (70 %) or [-40,8]; additionally shifting c0 by d in [-35,6] must scale the response by exp(d) to 1e-9 of its peak. Non-trivial: shape >= 0.5 neper and the reference response decays inside the window".into()
+        "vector length 2..41 (both readings of \"orders 2..40\"), alpha in {0} u [0,0.6], rate in {8k,16k,22.05k,44.1k,48k,96k}, cepstrum = Gaussian x geometric decay (a quarter of them sparse: exact zeros below non-zero higher orders, c0 == 0) with c0 in [-3,3] and shape max|log H - b0| scaled to a target in [0.2,2]; DFT log-magnitude of the pulse response (frame 1 and frame 2) on 65/257 frequencies vs sum_m c_m cos(m w~) within 0.01 neper; c0 in [-3,3] (70 %) or [-40,8]; additionally shifting c0 by d in [-35,6] must scale the response by exp(d) to 1e-9 of its peak. Non-trivial: shape >= 0.5 neper and the reference response decays inside the window".into()
     }
     fn tape_len(&self, _: Tier) -> usize {
-        4 * 42 + 16
+        8 * 44 + 32
     }
     fn cases(&self, tier: Tier) -> u32 {
         tier.pick(12_000, 150_000)
@@ -110,8 +128,8 @@ impl Prop for MlsaSpectrum {
         let alpha = gen_alpha(t);
         let len = match t.weighted(&[2, 5, 2]) {
             0 => t.urange(2, 3),
-            1 => t.urange(2, 40),
-            _ => t.urange(35, 40),
+            1 => t.urange(2, 41),
+            _ => t.urange(35, 41),
         };
         let target_shape = t.uniform(0.2, 2.0);
         let cepstrum = gen_cepstrum(t, len, alpha, target_shape);
